@@ -311,10 +311,13 @@ def part_vmap_combinator(ctx, P):
     from hypothesis import strategies as st
     from harness import modelir
 
-    def strat():
+    def strat(full=False):
         @st.composite
         def _c(draw):
-            p = draw(modelir.programs(discrete=False, combinators=("call", "vdist", "cond"), kwargs=False))
+            if full:  # callee programs with every combinator (Scan, Vmap, directly nested combinators) under the outer Vmap
+                p = draw(modelir.programs(discrete=False, kwargs=False, force=draw(st.sampled_from(["scan", "vmap", "nest", "cond"]))))
+            else:
+                p = draw(modelir.programs(discrete=False, combinators=("call", "vdist", "cond"), kwargs=False))
             npar = p["prog"]["fns"]["main"]["np"]
             axes = [draw(st.sampled_from([0, 0, None])) for _ in range(npar)]
             return {"kind": "vmapgf", **p, "in_axes": axes, "n": draw(st.integers(2, 3)), "key": draw(st.integers(0, 2**30)),
@@ -323,6 +326,7 @@ def part_vmap_combinator(ctx, P):
         return _c()
 
     drive(ctx, strat(), P["n_vmapgf"], lambda c: one_vmapgf(ctx, c), "vmapgf")
+    drive(ctx, strat(True), P.get("n_vmapgf_full", max(2, P["n_vmapgf"] // 2)), lambda c: one_vmapgf(ctx, c), "vmapgf_full")
 
 
 def classify_vmapgf(case):
@@ -407,7 +411,9 @@ def classify_vmapgf(case):
 def one_vmapgf(ctx, case):
     env.reset()
     fails, info = classify_vmapgf(case)
-    ctx.case(case, True, ["C08.vmap_combinator"] + (["C08.vmap_combinator_axis_none"] if None in case["in_axes"] else []), sample={k: case[k] for k in ("prog", "in_axes", "n", "lane_args")})
+    from harness import modelir as _m
+    fs = _m.features(case["prog"])
+    ctx.case(case, True, ["C08.vmap_combinator"] + (["C08.vmap_combinator_axis_none"] if None in case["in_axes"] else []) + [f"C08.vmap_combinator_over_{f}" for f in sorted(fs & {"scan", "vmap", "nest", "cond"})], sample={k: case[k] for k in ("prog", "in_axes", "n", "lane_args")})
     for b, w in fails:
         ctx.fail(b, w, case)
 
